@@ -1702,7 +1702,7 @@ class Table(Vector):
 		# 4. Name sanitization helpers
 		# ------------------------------------------------------------------
 		def make_agg_name(col, suffix):
-			base = col._name or "col"
+			base = col._name if col._name is not None else "col"   # (a label such as 0 or False is a name)
 			s = _sanitize_user_name(base)
 			if s is None:
 				s = "col"
@@ -1730,7 +1730,7 @@ class Table(Vector):
 		# Pre-bind: this is fast because group_items holds (key, rows)
 		for idx, col in enumerate(over):
 			values = [key[idx] for key, _ in group_items]
-			result_cols.append(Vector(values, name=uniquify(col._name or "key")))
+			result_cols.append(Vector(values, name=uniquify(col._name if col._name not in (None, "") else "key")))
 		
 		# ------------------------------------------------------------------
 		# 6. Column-major helper: aggregate one column for all groups
@@ -1960,7 +1960,7 @@ class Table(Vector):
 		used = set()
 		
 		def sanitize(col, suffix):
-			base = col._name or "col"
+			base = col._name if col._name is not None else "col"   # (a label such as 0 or False is a name)
 			s = _sanitize_user_name(base) or "col"
 			return f"{s}_{suffix}"
 		
@@ -1981,7 +1981,7 @@ class Table(Vector):
 		result_cols = []
 		for col in over:
 			result_cols.append(
-				Vector(list(col), name=uniquify(col._name or "key"))
+				Vector(list(col), name=uniquify(col._name if col._name not in (None, "") else "key"))
 			)
 		
 		# ----------------------------------------------------------------------
